@@ -124,7 +124,7 @@ PROPS = {
         "design_ref": "DESIGN.md §3.17, §4 C16",
     },
     "C05": {
-        "rules": ["FIELDS", "ZIPLEN", "REPLSCOPE", "CALLPRED", "HOLESIB", "BUFBIND", "NAMECONF", "CONDSPEC", "EXH", "TRAV@C05"],
+        "rules": ["FIELDS", "PAIRCOND", "ZIPLEN", "REPLSCOPE", "CALLPRED", "HOLESIB", "BUFBIND", "NAMECONF", "CONDSPEC", "EXH", "TRAV@C05"],
         "thorough": [],
         "technique": "static analysis: per-constructor field coverage of both unification operands, length-guard rule for zips over IR lists, edit-scope and sibling-agreement rules, call-site assertion-discharge rule",
         "level_text": "Structural clauses of replace(): every constructor case of unification reads every semantic field of both operands; no two IR child lists are zipped without an "
